@@ -64,11 +64,13 @@ def wasserstein(dgm1, dgm2, matching=False):
             )
             N = T.shape[0]
 
+    # an empty diagram is the one-point diagram (0, 0); it gets as many columns
+    # as the other diagram, or the cross distances below cannot be formed
     if M == 0:
-        S = np.array([[0, 0]])
+        S = np.zeros((1, T.shape[1] if N > 0 else 2))
         M = 1
     if N == 0:
-        T = np.array([[0, 0]])
+        T = np.zeros((1, S.shape[1]))
         N = 1
     # Compute CSM between S and dgm2, including points on diagonal
     # direct differences: the expanded |x|^2 + |y|^2 - 2xy form loses half the
